@@ -16,8 +16,8 @@ theorem sizeOf_new : sizeOf EmbedShm.sizes "new" = none := by
 theorem lookup_header : List.lookup "ShmHeader" EmbedShm.sizes = some 16 := by
   simp [EmbedShm.sizes, List.lookup, HEADER_SIZE]
 
-/-- the final store through the mapping -/
-def versionStore : Value := evStore (.str "version") (.int .u16 1) (.enumv "Ordering::Relaxed" [])
+/-- the final store through the mapping, with the memory ordering `ov` (a Rust value) -/
+def versionStore (ov : Value) : Value := evStore (.str "version") (.int .u16 1) ov
 
 set_option maxRecDepth 8000 in
 set_option maxHeartbeats 8000000 in
@@ -33,12 +33,13 @@ theorem new_unusable (inp : Nat → Value) (parent : String) (hasParent : Bool) 
     run (nctx inp) "ShmWriter::new" .unit [.ext "Path" [.str "shm", .str parent]]
     = .ok (.enumv "Ok" [writerValue 72]) .unit
         (evs ++ wipeEvents (.ext "Path" [.str "shm", .str parent]) (.ext "Path" [.str parent, .str ""]) hasParent ++
-          mapEvents (.ext "Path" [.str "shm", .str parent]) fd ++ [versionStore]) := by
+          mapEvents (.ext "Path" [.str "shm", .str parent]) fd ++ [versionStore (lastOrdV (run (nctx inp) "ShmWriter::new" .unit [.ext "Path" [.str "shm", .str parent]]))]) ∧
+    (ordOfValue (lastOrdV (run (nctx inp) "ShmWriter::new" .unit [.ext "Path" [.str "shm", .str parent]]))).isSome = true := by
   have hwipe := fun N env lg => known_wipe inp parent hasParent hp N env lg k hw
   have hmap := fun N env lg => known_mmap inp parent fd N env lg (k + (wipeAnswers hasParent).length) hm0 hm1
   have hseg := fun N st => known_segsize inp N st
   simp (config := { maxSteps := 8000000 }) [rs_eval, rs_code, ↓eval_call_wipe, ↓eval_call_usable, ↓eval_call_mmap, ↓eval_call_segsize, husable, hwipe, hmap, hseg, sizeOf_header, sizeOf_new, lookup_header, writerValue,
-    versionStore, evStore, List.append_assoc]
+    versionStore, evStore, mapEvents, evFs, lastOrdV, storeOrd, lastEv, lastEv_append_cons, lastEv_append_append, ordOfValue, List.append_assoc]
 
 set_option maxRecDepth 8000 in
 set_option maxHeartbeats 8000000 in
@@ -54,12 +55,13 @@ theorem new_usable_long (inp : Nat → Value) (parent : String) (fd : Nat) (len 
     run (nctx inp) "ShmWriter::new" .unit [.ext "Path" [.str "shm", .str parent]]
     = .ok (.enumv "Ok" [writerValue 72]) .unit
         (evs ++ [evFs "metadata" [.ext "Path" [.str "shm", .str parent]] (.enumv "Ok" [.ext "Metadata" [.int .u64 len]])] ++
-          mapEvents (.ext "Path" [.str "shm", .str parent]) fd ++ [versionStore]) := by
+          mapEvents (.ext "Path" [.str "shm", .str parent]) fd ++ [versionStore (lastOrdV (run (nctx inp) "ShmWriter::new" .unit [.ext "Path" [.str "shm", .str parent]]))]) ∧
+    (ordOfValue (lastOrdV (run (nctx inp) "ShmWriter::new" .unit [.ext "Path" [.str "shm", .str parent]]))).isSome = true := by
   have hmap := fun N env lg => known_mmap inp parent fd N env lg (k + 1) hm0 hm1
   have hseg := fun N st => known_segsize inp N st
   have hl : ¬ ((len : Int) < 72) := by omega
   simp (config := { maxSteps := 8000000 }) [rs_eval, rs_code, ↓eval_call_wipe, ↓eval_call_usable, ↓eval_call_mmap, ↓eval_call_segsize, husable, hmap, hseg, sizeOf_header, sizeOf_new, lookup_header, writerValue,
-    versionStore, evStore, evFs, List.append_assoc, hmeta, hl]
+    versionStore, evStore, mapEvents, evFs, lastOrdV, storeOrd, lastEv, lastEv_append_cons, lastEv_append_append, ordOfValue, List.append_assoc, hmeta, hl]
 
 set_option maxRecDepth 8000 in
 set_option maxHeartbeats 8000000 in
@@ -78,11 +80,12 @@ theorem new_usable_short (inp : Nat → Value) (parent : String) (fd : Nat) (len
         (evs ++ [evFs "metadata" [.ext "Path" [.str "shm", .str parent]] (.enumv "Ok" [.ext "Metadata" [.int .u64 len]]),
                  evFs "open_write" [.ext "Path" [.str "shm", .str parent]] (.enumv "Ok" [.ext "File" []]),
                  evFs "set_len" [.int .u64 72] (.enumv "Ok" [.tuple []])] ++
-          mapEvents (.ext "Path" [.str "shm", .str parent]) fd ++ [versionStore]) := by
+          mapEvents (.ext "Path" [.str "shm", .str parent]) fd ++ [versionStore (lastOrdV (run (nctx inp) "ShmWriter::new" .unit [.ext "Path" [.str "shm", .str parent]]))]) ∧
+    (ordOfValue (lastOrdV (run (nctx inp) "ShmWriter::new" .unit [.ext "Path" [.str "shm", .str parent]]))).isSome = true := by
   have hmap := fun N env lg => known_mmap inp parent fd N env lg (k + 3) hm0 hm1
   have hseg := fun N st => known_segsize inp N st
   have hl : (len : Int) < 72 := by omega
   simp (config := { maxSteps := 8000000 }) [rs_eval, rs_code, ↓eval_call_wipe, ↓eval_call_usable, ↓eval_call_mmap, ↓eval_call_segsize, husable, hmap, hseg, sizeOf_header, sizeOf_new, lookup_header, writerValue,
-    versionStore, evStore, evFs, List.append_assoc, Nat.add_assoc, hmeta, hopen, hset, hl]
+    versionStore, evStore, mapEvents, evFs, lastOrdV, storeOrd, lastEv, lastEv_append_cons, lastEv_append_append, ordOfValue, List.append_assoc, Nat.add_assoc, hmeta, hopen, hset, hl]
 
 end ClockBound.Rs.WriterNewProof
